@@ -257,21 +257,26 @@ Print Assumptions C07_prefix_dependent_defaults_follow_prefix.
 
 (* ---- "`buildtype` sets `debug`/`optimization` unless they are given explicitly"
    set_option(buildtype, v) (first invocation) is the write of buildtype followed -- when the
-   value changed and is not 'custom' -- by the writes of debug and optimization with the
-   DEFAULT_DEPENDENTS values; apply_wr_o / apply_wr_a describe the slots after each write. *)
+   VALUE changed (old <> new) and is not 'custom' -- by the writes of debug and optimization
+   with the DEFAULT_DEPENDENTS values; apply_wr_o / apply_wr_a describe the slots after each
+   write.  The returned flag is `changed or unsaved` (unsaved: the option was yielding, or
+   the subproject had no override of its own yet). *)
 Theorem C07_buildtype_sets_debug_and_optimization : forall f s k v s' ch,
   kmach k = Host -> kname k = bt_name -> pfx_ok s ->
   (forall rk o, resolve_option s k = Ok (rk, o) -> not_dname o = true) ->
   (forall rk o, resolve_option s (debug_of k) = Ok (rk, o) -> not_dname o = true) ->
   (forall rk o, resolve_option s (optimization_of k) = Ok (rk, o) -> not_dname o = true) ->
   set_option (S (S f)) s k v true = Ok (s', ch) ->
-  exists v3, canon s k v = Ok v3 /\ R s s' /\
-    ((ch = false \/ v3 = PStr (s2l "custom")) /\
+  exists v3 rk o s2 old unsaved,
+    canon s k v = Ok v3 /\ resolve_for_set s k = Ok (rk, o) /\
+    store_value s k rk v3 = Ok (s2, old, unsaved) /\
+    ch = negb (pv_eqb old v3) || unsaved /\ R s s' /\
+    ((pv_eqb old v3 = true \/ v3 = PStr (s2l "custom")) /\
        (forall x, oslot s' x = apply_wr_o (set_wr s k v) (oslot s) x) /\
        (forall x, aslot s' x = apply_wr_a (set_wr s k v) (aslot s) x)
      \/
      exists b optimization debug,
-       ch = true /\ v3 = PStr b /\ sassoc DEFAULT_DEPENDENTS b = Some (optimization, debug) /\
+       pv_eqb old v3 = false /\ v3 = PStr b /\ sassoc DEFAULT_DEPENDENTS b = Some (optimization, debug) /\
        (forall x, oslot s' x =
           apply_wr_o (set_wr s (optimization_of k) (PStr optimization))
             (apply_wr_o (set_wr s (debug_of k) (PBool debug))
